@@ -54,6 +54,93 @@ func (g *c05Gen) cond() gen.Expr {
 	return &gen.Bin{Op: op, L: v, R: g.lit(int64(g.rng.IntN(4))), T: gen.TBool}
 }
 
+// condParts returns a condition together with statements to place before and after the construct
+// that tests it. Besides the plain `param op literal` form it produces conditions over a local
+// whose value at the test comes from a parameter (so both outcomes are feasible and the syntactic
+// rule applies unchanged) while the same local holds a compile-time constant somewhere else in
+// the function: it is initialised with a constant and overwritten before the test, or it is
+// reassigned to a constant after the construct. A compiler that decides the condition from such
+// a constant drops a feasible path.
+func (g *c05Gen) condParts(sh map[string]bool) (pre []gen.Stmt, cond gen.Expr, post []gen.Stmt) {
+	switch g.rng.IntN(6) {
+	case 0: // bool flag, constant assigned afterwards
+		g.n++
+		f := &gen.Var{Name: fmt.Sprintf("fl%d", g.n), T: gen.TBool}
+		pre = []gen.Stmt{&gen.Let{Name: f.Name, T: gen.TBool, Init: g.cond()}}
+		post = []gen.Stmt{&gen.Assign{LHS: f, Op: "=", RHS: &gen.Lit{T: gen.TBool, I: int64(g.rng.IntN(2))}}}
+		sh["cond-local-flag-constant-later"] = true
+		return pre, f, post
+	case 1: // int local, constant assigned afterwards
+		g.n++
+		l := &gen.Var{Name: fmt.Sprintf("lv%d", g.n), T: gen.I32}
+		k := int64(g.rng.IntN(3))
+		pre = []gen.Stmt{&gen.Let{Name: l.Name, T: gen.I32, Init: g.a}}
+		post = []gen.Stmt{&gen.Assign{LHS: l, Op: "=", RHS: g.lit(k + int64(g.rng.IntN(2)))}}
+		sh["cond-local-int-constant-later"] = true
+		return pre, &gen.Bin{Op: []string{"==", "!=", "<", ">="}[g.rng.IntN(4)], L: l, R: g.lit(k), T: gen.TBool}, post
+	case 2: // constant initialiser overwritten by a run-time value before the test
+		g.n++
+		f := &gen.Var{Name: fmt.Sprintf("fl%d", g.n), T: gen.TBool}
+		pre = []gen.Stmt{&gen.Let{Name: f.Name, T: gen.TBool, Init: &gen.Lit{T: gen.TBool, I: int64(g.rng.IntN(2))}},
+			&gen.Assign{LHS: f, Op: "=", RHS: g.cond()}}
+		sh["cond-local-flag-constant-before"] = true
+		return pre, f, nil
+	}
+	return nil, g.cond(), nil
+}
+
+// c05Directed is the number of directed stale-constant templates.
+const c05Directed = 14
+
+// directed builds body template d: a function whose only return sits behind a condition over a
+// local that is run-time valued at the test but holds a compile-time constant elsewhere. Every
+// template has a feasible path to the end of the body without a return: MUST_REJECT.
+func (g *c05Gen) directed(d int, sh map[string]bool) c05Body {
+	fl := &gen.Var{Name: "fl", T: gen.TBool}
+	lv := &gen.Var{Name: "lv", T: gen.I32}
+	bl := func(v int64) *gen.Lit { return &gen.Lit{T: gen.TBool, I: v} }
+	aGt := &gen.Bin{Op: ">", L: g.a, R: g.lit(1), T: gen.TBool}
+	letFl := &gen.Let{Name: "fl", T: gen.TBool, Init: aGt}
+	letLv := &gen.Let{Name: "lv", T: gen.I32, Init: g.a}
+	ifRet := func(c gen.Expr) gen.Stmt { return &gen.If{Cond: c, Then: []gen.Stmt{g.retStmt()}} }
+	setFl := func(v int64) gen.Stmt { return &gen.Assign{LHS: fl, Op: "=", RHS: bl(v)} }
+	var ss []gen.Stmt
+	switch d {
+	case 0:
+		ss = []gen.Stmt{letFl, ifRet(fl), setFl(1)}
+	case 1:
+		ss = []gen.Stmt{letFl, ifRet(&gen.Un{Op: "!", X: fl}), setFl(0)}
+	case 2:
+		ss = []gen.Stmt{letLv, ifRet(&gen.Bin{Op: "==", L: lv, R: g.lit(0), T: gen.TBool}), &gen.Assign{LHS: lv, Op: "=", RHS: g.lit(0)}}
+	case 3:
+		ss = []gen.Stmt{letLv, ifRet(&gen.Bin{Op: "!=", L: lv, R: g.lit(0), T: gen.TBool}), &gen.Assign{LHS: lv, Op: "=", RHS: g.lit(5)}}
+	case 4:
+		ss = []gen.Stmt{&gen.Let{Name: "fl", T: gen.TBool, Init: bl(1)}, &gen.Assign{LHS: fl, Op: "=", RHS: aGt}, ifRet(fl)}
+	case 5:
+		ss = []gen.Stmt{letFl, &gen.If{Cond: fl, Then: []gen.Stmt{g.retStmt()}, Else: []gen.Stmt{g.filler()}}, setFl(1)}
+	case 6:
+		ss = []gen.Stmt{&gen.Let{Name: "lv", T: gen.I32, Init: g.b}, &gen.Match{Subj: lv, Arms: []gen.MatchArm{{Pat: g.lit(0), Body: []gen.Stmt{g.retStmt()}}}}, &gen.Assign{LHS: lv, Op: "=", RHS: g.lit(0)}}
+	case 7:
+		ss = []gen.Stmt{letFl, &gen.If{Cond: &gen.Bin{Op: "==", L: g.b, R: g.lit(0), T: gen.TBool}, Then: []gen.Stmt{g.retStmt()}, Else: []gen.Stmt{ifRet(fl)}}, setFl(1)}
+	case 8:
+		ss = []gen.Stmt{letFl, &gen.If{Cond: &gen.Bin{Op: "==", L: g.b, R: g.lit(7), T: gen.TBool}, Then: []gen.Stmt{setFl(1)}}, ifRet(fl)}
+	case 9:
+		ss = []gen.Stmt{letFl, ifRet(fl), &gen.Block{Body: []gen.Stmt{setFl(1)}}}
+	case 10:
+		iw := &gen.Var{Name: "iw", T: gen.I32}
+		ss = []gen.Stmt{letFl, ifRet(fl), &gen.Let{Name: "iw", T: gen.I32, Init: g.lit(0), Annot: true},
+			&gen.While{Cond: &gen.Bin{Op: "<", L: iw, R: g.lit(1), T: gen.TBool}, Body: []gen.Stmt{setFl(1), &gen.Assign{LHS: iw, Op: "=", RHS: &gen.Bin{Op: "+", L: iw, R: g.lit(1), T: gen.I32}}}}}
+	case 11: // the flag is a compile-time constant only on the path that skips the test
+		ss = []gen.Stmt{&gen.Let{Name: "fl", T: gen.TBool, Init: bl(0)}, &gen.If{Cond: &gen.Bin{Op: "<", L: g.b, R: g.lit(9), T: gen.TBool}, Then: []gen.Stmt{&gen.Assign{LHS: fl, Op: "=", RHS: aGt}, ifRet(fl)}}, setFl(1)}
+	case 12: // const-looking comparison of two locals, one of them run-time valued
+		ss = []gen.Stmt{letLv, &gen.Let{Name: "k0", T: gen.I32, Init: g.lit(2)}, ifRet(&gen.Bin{Op: "<", L: lv, R: &gen.Var{Name: "k0", T: gen.I32}, T: gen.TBool}), &gen.Assign{LHS: lv, Op: "=", RHS: g.lit(1)}}
+	default: // logical combination with a literal
+		ss = []gen.Stmt{letFl, ifRet(&gen.Bin{Op: "&&", L: fl, R: bl(1), T: gen.TBool}), setFl(1)}
+	}
+	sh[fmt.Sprintf("directed-stale-constant-%d", d)] = true
+	return c05Body{stmts: ss, returns: false, shapes: sh}
+}
+
 func (g *c05Gen) retStmt() gen.Stmt {
 	g.n++
 	// distinct constants identify which return executed
@@ -93,13 +180,21 @@ func (g *c05Gen) body(depth int, wantReturn bool, sh map[string]bool) c05Body {
 	case 1, 2: // if / else
 		th := g.body(depth-1, wantReturn, sh)
 		el := g.body(depth-1, wantReturn || g.rng.IntN(3) == 0, sh)
-		out.stmts = append(out.stmts, &gen.If{Cond: g.cond(), Then: th.stmts, Else: el.stmts})
+		pre, cnd, post := g.condParts(sh)
+		out.stmts = append(out.stmts, pre...)
+		out.stmts = append(out.stmts, &gen.If{Cond: cnd, Then: th.stmts, Else: el.stmts})
 		out.returns = th.returns && el.returns
+		if !out.returns {
+			out.stmts = append(out.stmts, post...)
+		}
 		out.may = th.may || el.may
 		sh["if-else"] = true
 	case 3: // if without else (+ maybe trailing return)
 		th := g.body(depth-1, true, sh)
-		out.stmts = append(out.stmts, &gen.If{Cond: g.cond(), Then: th.stmts})
+		pre, cnd, post := g.condParts(sh)
+		out.stmts = append(out.stmts, pre...)
+		out.stmts = append(out.stmts, &gen.If{Cond: cnd, Then: th.stmts})
+		out.stmts = append(out.stmts, post...)
 		out.may = th.may
 		sh["if-no-else"] = true
 		if wantReturn {
@@ -209,9 +304,9 @@ func (g *c05Gen) body(depth int, wantReturn bool, sh map[string]bool) c05Body {
 
 func checkC05(c *Ctx) error {
 	r := c.R
-	r.Rule = "function bodies built from nested if / else-if / else, integer match with and without default, enum match (exhaustive without default = MAY), while / for with break / continue and early returns, as named functions, methods and function literals; each classified by a reference path analysis. MUST_REJECT bodies must be rejected (control: the same body plus a trailing return must be accepted), MUST_ACCEPT bodies must be accepted; every accepted function is called natively over the argument grid {-1,0,1,2,3}^2 x all enum variants and its printed results compared with the reference interpreter (which detects falling off the end). non-trivial = a distinct body whose verdict matched (and, if accepted, whose grid outputs matched)"
+	r.Rule = "function bodies built from nested if / else-if / else, integer match with and without default, enum match (exhaustive without default = MAY), while / for with break / continue and early returns, as named functions, methods and function literals, with conditions over parameters and over locals that are run-time valued at the test but constant elsewhere in the function (plus 14 directed stale-constant templates x 4 forms); each classified by a reference path analysis. MUST_REJECT bodies must be rejected (control: the same body plus a trailing return must be accepted), MUST_ACCEPT bodies must be accepted; every accepted function is called natively over the argument grid {-1,0,1,2,3}^2 x all enum variants and its printed results compared with the reference interpreter (which detects falling off the end). non-trivial = a distinct body whose verdict matched (and, if accepted, whose grid outputs matched)"
 	r.Assumptions = []string{"conditions are opaque to the path analysis; `while` and `for` never count as returning; statements after a return are not generated"}
-	n := c.N(90, 2500)
+	n := c.N(320, 4000)
 	enum := &gen.Type{K: gen.KEnum, Name: "Kind", Variants: []string{"A", "B", "C"}}
 	recv := &gen.Type{K: gen.KStruct, Name: "Box", Fields: []gen.Field{{Name: "V", T: gen.I32}}}
 	type cse struct {
@@ -226,7 +321,12 @@ func checkC05(c *Ctx) error {
 		rng := r.Rng(i)
 		g := &c05Gen{rng: rng, enum: enum, a: &gen.Var{Name: "a", T: gen.I32}, b: &gen.Var{Name: "b", T: gen.I32}, e: &gen.Var{Name: "e", T: enum}}
 		sh := map[string]bool{}
-		b := g.body(2+rng.IntN(2), rng.IntN(4) != 0, sh)
+		var b c05Body
+		if i >= n {
+			b = g.directed((i-n)/4, sh)
+		} else {
+			b = g.body(2+rng.IntN(2), rng.IntN(4) != 0, sh)
+		}
 		cl := c05MustAccept
 		if !b.returns {
 			cl = c05MustReject
@@ -291,7 +391,7 @@ func checkC05(c *Ctx) error {
 		}
 		return cs
 	}
-	cases := make([]cse, n)
+	cases := make([]cse, n+4*c05Directed)
 	var tcs []TC
 	idx := map[int]int{}  // case -> tc index of program
 	cidx := map[int]int{} // case -> tc index of control
